@@ -282,6 +282,23 @@ func c08(r *Run) {
 			i2 := &c08inj{src: src2, t: t2, y: "q", method: m2, hasA: true, wellA: true, tokened: true, form: form, vetoed: vetoRule(m2, t2)}
 			deliver(i2, q2)
 			r.Probe("tokened-write")
+			if usePut {
+				// the stored item is then read back: the value-carrying path of the get handler
+				for _, wr := range r.Drain() {
+					c08attribute(r, injected, wr)
+				}
+				val := "immutable value " + fmt.Sprint(i)
+				tg := refImmutableTarget(benc.Encode(val))
+				t3 := "tg" + fmt.Sprint(i)
+				a3 := benc.Dict{{K: "id", V: string(id[:])}, {K: "target", V: string(tg[:])}}
+				if ch.Chance(1, 3, "readback.seq") {
+					a3 = a3.Set("seq", int64(ch.Intn(3, "readback.seq.v")-1))
+				}
+				used[src.String()+"|"+t3] = true
+				i3 := &c08inj{src: src, t: t3, y: "q", method: "get", hasA: true, wellA: true, form: form, vetoed: vetoRule("get", t3)}
+				deliver(i3, Query("get", t3, a3))
+				r.Probe("get-of-stored-item")
+			}
 		} else if ch.Chance(3, 4, "single") {
 			inj, p := gen()
 			deliver(inj, p)
